@@ -18,6 +18,7 @@ EXTRA = {
             ("SafeC.Props.C07Mem.mem_prim_move_C07", "SafeC.Props.C07Mem", "full", "mem_prim_move (bytes, 64-bit word variant) = memmove for every length, overlap and alignment"),
             ("SafeC.Props.C07Mem.mem_prim_move_elems_C07", "SafeC.Props.C07Mem", "full", "mem_prim_move8/16/32 = memmove on elements for every length and overlap"),
             ("SafeC.Props.C07Mem.memmove_s_C07", "SafeC.Props.C07Mem", "full", "memmove_s, valid arguments, any overlap: EOK and exactly the bytes a copy through a temporary would give"),
+            ("SafeC.Props.C07Mem.memmove_s_C07_bos", "SafeC.Props.C07Mem", "full", "memmove_s with known object sizes (destbos/srcbos arbitrary, dmax and slen within them): exact memmove"),
             ("SafeC.Props.C07Mem.memmove16_s_C07", "SafeC.Props.C07Mem", "full", "memmove16_s, valid arguments, any overlap: memmove semantics"),
             ("SafeC.Props.C07Mem.memmove32_s_C07", "SafeC.Props.C07Mem", "full", "memmove32_s, valid arguments, any overlap: memmove semantics"),
             ("SafeC.Props.C07Mem.wmemmove_s_C07", "SafeC.Props.C07Mem", "full", "wmemmove_s, valid arguments (dlen*4 <= RSIZE_MAX_WMEM: byte size against element limit), any overlap: memmove semantics"),
